@@ -36,8 +36,12 @@ RULES = {
     "list of futures in submission order; a loop over concurrent.futures.as_completed(...) / wait(...) only surfaces "
     "exceptions (`future.result()` as a statement) - the external tensors are paired with the initializers position by "
     "position, so results gathered in completion order attach one initializer's name to another's dtype, shape and bytes",
+    "R9": "one key for writing and reading back: the safetensors writer keys its entries by `<tensor>.name` and the replacement step "
+    "finds the initializer by `<value>.name`; where the writer's key comes from a tensor bound to `<value>.const_value`, the "
+    "tensor's name is first aligned with the value's name in the same loop (or the key is the value's name itself) - otherwise an "
+    "initializer whose tensor is named differently is written under a key nothing reads back",
 }
-FLOORS = {"R1": 4, "R2": 4, "R3": 20, "R4": 1, "R5": 3, "R6": 25, "R7": 1, "R8": 2}
+FLOORS = {"R1": 4, "R2": 4, "R3": 20, "R4": 1, "R5": 3, "R6": 25, "R7": 1, "R8": 2, "R9": 1}
 EXPLANATION = (
     "Class-qualified effect summaries of the try bodies and finally blocks of the two save entry points; data-flow "
     "checks on the initializer collection loops and on the offset accumulators; table agreement between the "
@@ -391,6 +395,42 @@ def rule_r6(ctx):
     ctx.require(n >= 25, f"only {n} same-named option bindings examined")
 
 
+def rule_r9(ctx):
+    m = ctx.repo.modules.get("onnx_ir._safetensors")
+    ctx.require(m is not None, "onnx_ir._safetensors not found")
+    n = 0
+    for f in m.all_funcs:
+        if isinstance(f.node, ast.Lambda):
+            continue
+        # writer keys: <table>[<T>.name] = {...}
+        keys = [t for a in own_nodes(f.node) if isinstance(a, ast.Assign) and isinstance(a.value, ast.Dict) for t in a.targets
+                if isinstance(t, ast.Subscript) and isinstance(t.slice, ast.Attribute) and t.slice.attr == "name" and isinstance(t.slice.value, ast.Name)]
+        if not keys:
+            continue
+        # tensors bound from a value: T = V.const_value (the collection loop) and alignments T.name = V.name
+        bound = {a.targets[0].id: norm(a.value.value) for a in own_nodes(f.node) if isinstance(a, ast.Assign) and isinstance(a.targets[0], ast.Name)
+                 and isinstance(a.value, ast.Attribute) and a.value.attr == "const_value"}
+        aligned = {a.targets[0].value.id for a in own_nodes(f.node) if isinstance(a, ast.Assign) and isinstance(a.targets[0], ast.Attribute)
+                   and a.targets[0].attr == "name" and isinstance(a.targets[0].value, ast.Name) and isinstance(a.value, ast.Attribute) and a.value.attr == "name"
+                   and bound.get(a.targets[0].value.id) == norm(a.value.value)}
+        for t in keys:
+            n += 1
+            kv = t.slice.value.id
+            # the key variable is a loop variable over a collection of tensors filled from the bound tensors, or a value itself
+            try:
+                is_value = any(k.name == "Value" for k in ctx.typer.recv_classes(f, t.slice.value))
+            except Exception:
+                is_value = False
+            ok = is_value or bool(aligned)
+            ctx.check("R9", f"{f.local}: entries keyed by `{kv}.name` are read back by value name (names aligned)", ok, f, t,
+                      f"the file entry is keyed by `{kv}.name` - the tensor's own name - while the replacement step looks initializers up by the value's name, and "
+                      "no `<tensor>.name = <value>.name` alignment precedes it: an initializer whose tensor carries another name is written under a key that "
+                      "nothing maps back (the save fails after the file was written)",
+                      how="key expression of the write table vs alignment statements on tensors bound from <value>.const_value",
+                      construct=f"safetensors entries keyed by {kv}.name without alignment")
+    ctx.require(n >= 1, "the safetensors write table (entries keyed by a name) was not found")
+
+
 def rule_r8(ctx):
     n = 0
     for mn in ("onnx_ir.external_data", "onnx_ir._safetensors", "onnx_ir._io"):
@@ -425,6 +465,7 @@ def rule_r8(ctx):
 
 
 def run(ctx):
+    rule_r9(ctx)
     rule_r8(ctx)
     ef = ctx._shared.get("effects")
     if ef is None:
